@@ -281,8 +281,21 @@ class FakeFileObj:
     def fileno(self):
         return self.fd
 
+    def write(self, b):
+        if self.closed:
+            raise ValueError('write to closed file')
+        return self.w.write(self.fd, b)
+
     def flush(self):
         pass
+
+
+def _init_ptyprocess_constants():
+    import ptyprocess.ptyprocess as PP
+    PP._make_eof_intr()       # normally done by PtyProcess.__init__ (we build instances without forking)
+
+
+_init_ptyprocess_constants()
 
 
 def make_pty_spawn(w, fd=7, pid=4242, **kw):
@@ -304,3 +317,19 @@ def make_pty_spawn(w, fd=7, pid=4242, **kw):
     sp.delaybeforesend = None
     sp.use_poll = False
     return sp, pt
+
+
+class disarm:
+    """PtyProcess.__del__ calls close() on an unclosed instance.  Our instances are garbage collected at
+    an arbitrary later moment (possibly in the middle of the next symbolic path, with `os` patched to
+    that path's world), so they are marked closed when the harness is done with them."""
+
+    def __init__(self, pt):
+        self.pt = pt
+
+    def __enter__(self):
+        return self
+
+    def __exit__(self, *a):
+        self.pt.closed = True
+        return False
